@@ -9,6 +9,7 @@ import MotoModel.Proofs.DiskWriteRead
 import MotoModel.Proofs.DiskExtract
 import MotoModel.Proofs.DiskSmall
 import MotoModel.Props.C04
+import MotoModel.Proofs.DiskOrder
 namespace Moto.C02
 open Moto Moto.Disk
 
@@ -206,5 +207,26 @@ theorem small_batch_roundtrip (fl : Flavour) (w : Tape.World) (verbose : Bool) (
     rcases hof k j r c hk hj hf with h | h
     · rw [fresh_no_file k j hk hj] at h; cases h
     · exact h
+
+/-- **C02 (… in the order stored, under its upper-cased 8.3 name, in the directory of its side)**: when
+    every source names a readable file with an ordinary 8.3 name and the batch fits on the first side
+    (at most 157 blocks, at most 112 files), the image `--create` writes holds source number `i` in
+    catalog entry `i` of side 0 — so the listing shows the files in the order given — and `--extract`
+    writes exactly `side0/NAME.EXT` for each source, in the order of the command line, with exactly
+    its data (`diskName`: the name read back from the entry bytes written for the source). -/
+theorem small_batch_in_order (fl : Flavour) (w : Tape.World) (verbose : Bool) (archive : Str) (items : List (Str × Bytes))
+    (hall : ∀ p ∈ items, Storable w p.1 p.2) (hord : ∀ p ∈ items, OrdinarySrc p.1)
+    (hB : batchBlocks items ≤ 157) (hS : items.length ≤ 112) (verbose2 : Bool) (into : Option Str) :
+    ∃ img, ImgOk img
+      ∧ (create fl w verbose archive (items.map (·.1))).writes = [(archive, save fl img)]
+      ∧ (∀ i, (hi : i < items.length) → ∃ r, imgFileAt img 0 i = some (r, (items[i]).2) ∧ RecOf (items[i]).1 r (items[i]).2.length)
+      ∧ (extract fl verbose2 archive into (save fl img)).status = .ret 0
+      ∧ (extract fl verbose2 archive into (save fl img)).writes
+          = items.map (fun p => (pathJoin (pathJoin (Tape.targetDirOf archive into) (Tape.str "side" ++ digits 0)) (diskName p.1), p.2)) :=
+  Disk.small_batch_in_order fl w verbose archive items hall hord hB hS verbose2 into
+
+/-- the name a source is extracted under, on examples: upper case, 8.3, the `,a` option dropped -/
+example : diskName (Tape.str "dir.d/prog.bas,a") = Tape.str "PROG.BAS" ∧ diskName (Tape.str "noext") = Tape.str "NOEXT."
+    ∧ diskName (Tape.str "a.b") = Tape.str "A.B" := by decide +kernel
 
 end Moto.C02
